@@ -665,7 +665,8 @@ func runC10(c *Ctx) {
 						r.Fail("R3", key, c.pos(call), "server side: no call of a function that writes the success CEA (Answer(2001) + WriteTo) in the CER handler")
 						return
 					}
-					if !flow.Dominates(writer, setAt) || !errEdgeTested(writer) {
+					passesWriter := flow.Dominates(writer, setAt) || flow.PathAvoiding(f, nil, func(in ssa.Instruction) bool { return in == setAt }, func(in ssa.Instruction) bool { return in == ssa.Instruction(writer) }) == nil
+					if !passesWriter || !errEdgeTested(writer) {
 						r.Fail("R3", key, c.pos(setAt), "metadata is stored before / regardless of the success CEA having been written")
 						return
 					}
@@ -746,7 +747,20 @@ func pathFromErrEdge(f *ssa.Function, call *ssa.Call, target ssa.Instruction) []
 }
 
 // answersWith: g calls (*Message).Answer with the given constant.
-func (c *Ctx) answersWith(g *ssa.Function, code int64) bool {
+func (c *Ctx) answersWith(g *ssa.Function, code int64) bool { return c.answersWithDepth(g, code, 0) }
+
+func (c *Ctx) answersWithDepth(g *ssa.Function, code int64, depth int) bool {
+	if g == nil || g.Blocks == nil || depth > 2 {
+		return false
+	}
+	// … or obtains the answer from a builder of the same package
+	for _, ci := range flow.CallInstrs(g) {
+		if h := flow.StaticCallee(ci); h != nil && h != g && depth < 2 && c.P.IsLibrary(h) && pkgOf(h) == pkgOf(g) && h.Signature.Results().Len() >= 1 && isMsgPtr(h.Signature.Results().At(0).Type()) {
+			if c.answersWithDepth(h, code, depth+1) {
+				return true
+			}
+		}
+	}
 	for _, ci := range flow.CallInstrs(g) {
 		if flow.IsCallTo(ci, pkgDiam, "Message", "Answer") && len(ci.Common().Args) == 2 {
 			if v, ok := flow.ConstInt(ci.Common().Args[1]); ok && v == code {
